@@ -96,7 +96,7 @@ func plDetail(pl *gen.PList, cuts []int) map[string]any {
 
 // RunC17 is the monitor for C17.
 func RunC17(r *core.Run) {
-	r.Rule = "case = one grammar-generated parameter list (0..6 items name[=value], values token / quoted with escapes / empty / missing, SP/HT/folds around names '=' and separators, empty items, separator ';' or '&', terminator in {end of header, ',' / '?', whitespace-then-token, end of input} as the flag set allows) for each of the 15 documented flag sets (+ random flag sets); ParseTokenParam driven value by value, ParseAllURIParams / ParseAllURIHdrs for capacities 0..n+1; expected by construction: one parameter per item in order, Name/Val exactly the written text (quoted values complete), All containing both, final verdict and offset per terminator, wrappers' N / per-parameter type (independent table, case-insensitive) / Types; character stage: every byte value 0..255 at name-start, name-middle, value-start and value-middle in 6 modes must be accepted iff it is in the documented set (letters digits -_.!~*'()% []/:+$, '&' in URI-parameter mode, '?' otherwise) and otherwise be rejected with ErrHdrBadChar AT that byte; GetViaBrSig: branch found iff present, prefix rule; non-trivial = list accepted and compared; distinct by hash"
+	r.Rule = "case = one grammar-generated parameter list (0..6 items name[=value], values token / quoted with escapes / empty / missing, SP/HT/folds around names '=' and separators, empty items, separator ';' or '&', terminator in {end of header, ',' / '?', whitespace-then-token, end of input} as the flag set allows) for each of the 15 documented flag sets (+ random flag sets); ParseTokenParam driven value by value, ParseAllURIParams / ParseAllURIHdrs for capacities 0..n+1; expected by construction: one parameter per item in order, Name/Val exactly the written text (quoted values complete), All containing both, final verdict and offset per terminator, wrappers' N / per-parameter type (independent table, case-insensitive) / Types; character stage: every byte value 0..255 at name-start, name-middle, value-start and value-middle in 6 modes must be accepted iff it is in the documented set (letters digits -_.!~*'()% []/:+$, '&' in URI-parameter mode, '?' otherwise) and otherwise be rejected (an error verdict) instead of being absorbed into a name or value; GetViaBrSig: branch found iff present, prefix rule; non-trivial = list accepted and compared; distinct by hash"
 	r.Assume = []string{"whitespace-then-token: any offset inside the separating whitespace run is accepted; an empty value directly before SP+token is ambiguous (a= b is a=b) and not generated; a zero-item list before a ','/'?' terminator has no stated verdict and is not generated",
 		"for an empty value only Val.Len == 0 is demanded (its offset is unspecified)"}
 	n := r.Pick(1500000, 150000000)
@@ -416,9 +416,9 @@ func RunC17(r *core.Run) {
 			}
 			w.Inc("allowed_bytes_seen")
 		} else {
-			if e != sipsp.ErrHdrBadChar || nn != at {
+			if !IsErrVerdict(e) {
 				w.Fail("bad-char-absorbed", func() *core.Violation {
-					return core.V(fmt.Sprintf("byte %q (offset %d) is outside the documented set for flags %#x but %q gives %s at %d (expected ErrHdrBadChar at %d)", c, at, uint(flags), in, errName(e), nn, at), in, map[string]any{"flags": uint(flags), "position": pos})
+					return core.V(fmt.Sprintf("byte %q (offset %d) is outside the documented set for flags %#x but %q gives %s at %d (expected an error verdict: rejected, not absorbed)", c, at, uint(flags), in, errName(e), nn), in, map[string]any{"flags": uint(flags), "position": pos})
 				})
 			}
 			w.Inc("rejected_bytes_seen")
